@@ -2,6 +2,8 @@ package updates
 
 import (
 	"fmt"
+	"math"
+	"math/big"
 	"reflect"
 
 	"github.com/ovn-org/libovsdb/mapper"
@@ -384,6 +386,9 @@ func (u *ModelUpdates) addMutateOperation(dbModel model.DatabaseModel, table, uu
 		}
 
 		newValue, diff := mutate(current, mutation.Mutator, nativeValue)
+		if err := checkArithmeticRange(current, mutation.Mutator, nativeValue, newValue); err != nil {
+			return err
+		}
 		if err := newInfo.SetField(mutation.Column, newValue); err != nil {
 			return err
 		}
@@ -531,4 +536,50 @@ func updateOrModifyModel(dbModel model.DatabaseModel, table string, info *mapper
 	}
 
 	return changed, nil
+}
+
+// checkArithmeticRange reports the "range error" of RFC 7047 5.2.5: the result
+// of an arithmetic mutation is not representable (an integer that wrapped
+// around, a real that is no longer finite).
+func checkArithmeticRange(current interface{}, mutator ovsdb.Mutator, value, result interface{}) error {
+	switch mutator {
+	case ovsdb.MutateOperationAdd, ovsdb.MutateOperationSubtract, ovsdb.MutateOperationMultiply,
+		ovsdb.MutateOperationDivide, ovsdb.MutateOperationModulo:
+	default:
+		return nil
+	}
+	outOfRange := ovsdb.NewRangeError(fmt.Sprintf("the result of %v %s %v is not representable", current, mutator, value))
+	switch r := result.(type) {
+	case float64:
+		if math.IsInf(r, 0) || math.IsNaN(r) {
+			return outOfRange
+		}
+	case int:
+		c, ok1 := current.(int)
+		v, ok2 := value.(int)
+		if !ok1 || !ok2 {
+			return nil
+		}
+		// redo the operation with arbitrary precision
+		exact := new(big.Int)
+		switch mutator {
+		case ovsdb.MutateOperationAdd:
+			exact.Add(big.NewInt(int64(c)), big.NewInt(int64(v)))
+		case ovsdb.MutateOperationSubtract:
+			exact.Sub(big.NewInt(int64(c)), big.NewInt(int64(v)))
+		case ovsdb.MutateOperationMultiply:
+			exact.Mul(big.NewInt(int64(c)), big.NewInt(int64(v)))
+		case ovsdb.MutateOperationDivide:
+			if v == 0 {
+				return nil
+			}
+			exact.Quo(big.NewInt(int64(c)), big.NewInt(int64(v)))
+		default:
+			return nil
+		}
+		if !exact.IsInt64() || exact.Int64() != int64(r) {
+			return outOfRange
+		}
+	}
+	return nil
 }
